@@ -30,6 +30,7 @@ type Program struct {
 	callOnly     map[*ast.FuncLit]types.Object
 	globalInits  map[*types.Var]ast.Expr
 	privAlloc    map[types.Object]bool
+	normElem     bool
 	binOpDone    bool
 	binOpVals    map[string]string
 	binOpPos     token.Pos
@@ -497,6 +498,9 @@ func isIdentByte(b byte) bool {
 
 // Field returns the struct field named name of named type (or pointer to it).
 func StructOf(t types.Type) *types.Struct {
+	if t == nil {
+		return nil
+	}
 	if p, ok := t.Underlying().(*types.Pointer); ok {
 		t = p.Elem()
 	}
